@@ -56,6 +56,7 @@ func runC11(p *eng.Prog, r *eng.Report, tier string) {
 	c := &cx{p, r, tier}
 	c11ElementIsCharData(c, "C11.14")
 	c11LengthLimitsOnCanonicalParts(c, "C11.15")
+	c11CodecsVerbatim(c, "C11.16")
 	// ---- C11.1 who may write ---------------------------------------------------
 	allowed := map[string]bool{"jid.New": true, "jid.JID.WithLocal": true, "jid.JID.WithDomain": true, "jid.JID.WithResource": true, "jid.JID.Bare": true, "jid.JID.Domain": true,
 		"jid.(*JID).UnmarshalXML": true, "jid.(*JID).UnmarshalXMLAttr": true, "jid.NewUnsafe": true}
@@ -530,7 +531,14 @@ func runC11(p *eng.Prog, r *eng.Report, tier string) {
 					cid := nd.CalleeID(cl)
 					if (cid == "strings.TrimSuffix" || cid == "strings.TrimRight") && len(cl.Args) == 2 {
 						if cv := nd.ConstVal(cl.Args[1]); cv != nil && constant.StringVal(cv) == "." {
-							found = true
+							// the mapping can leave several separators at the end
+							// ("example.com。。"): TrimRight removes them all,
+							// TrimSuffix one - unless it runs in a loop
+							if cid == "strings.TrimRight" {
+								found = true
+							} else if tp, ok := g.Where(cl); ok && g.Reachable(g.After(tp), tp, nil, nil) {
+								found = true
+							}
 						}
 					}
 				}
@@ -1052,4 +1060,71 @@ func c11LengthLimitsOnCanonicalParts(c *cx, id string) {
 		})
 	}
 	c.r.Floor(id, "uses of the length errors", n, 3)
+	// the same for a limit under another name: a comparison of len(x) with a
+	// constant of a kilobyte or more in package jid is one of the three checks
+	okIn := map[string]bool{"jid.localChecks": true, "jid.resourceChecks": true, "jid.normalizeDomainpart": true}
+	for _, f := range c.allFns() {
+		if !strings.HasPrefix(f.Short, "jid.") || f.Body == nil {
+			continue
+		}
+		f.WalkBody(func(nd ast.Node) bool {
+			be, ok := nd.(*ast.BinaryExpr)
+			if !ok {
+				return true
+			}
+			switch be.Op {
+			case token.LSS, token.GTR, token.LEQ, token.GEQ:
+			default:
+				return true
+			}
+			for _, pr := range [][2]ast.Expr{{be.X, be.Y}, {be.Y, be.X}} {
+				cl, isCall := ast.Unparen(pr[0]).(*ast.CallExpr)
+				if !isCall || f.CalleeID(cl) != "builtin.len" {
+					continue
+				}
+				if k, isConst := f.ConstInt(pr[1]); isConst && k >= 1000 {
+					c.r.Check(id, f, "length limit "+f.Norm(be, nil), "C: a length limit of a kilobyte or more is applied by the checks of the canonical parts only", be.Pos(), okIn[f.Short], "a limit on the length of "+types.ExprString(cl.Args[0])+" in "+f.Short+": raw spellings that are longer than their canonical form (or three maximal parts plus their separators) are refused although the address is valid")
+				}
+			}
+			return true
+		})
+	}
+}
+
+// jidCore (dependency bundle): what the properties that only USE addresses
+// (stanza conversion, routing, replies, headers, MUC occupants) rest on:
+// String() partitions the buffer correctly, the XML codecs go through
+// Parse/String without rewriting the text and without sharing buffers between
+// decoded values, Equal compares bytes and both lengths, length limits apply
+// to canonical parts.
+func jidCore(c *cx, id string) {
+	c11StringLengths(c, id)
+	c11ElementIsCharData(c, id)
+	c11LengthLimitsOnCanonicalParts(c, id)
+	jidEqualRule(c, id)
+	jidAppendsFresh(c, id)
+	c11CodecsVerbatim(c, id)
+}
+
+// c11CodecsVerbatim (C11.16): the XML codecs of JID hand the text they were
+// given to Parse as it is (and write String() as it is): no string-rewriting
+// call (trim, case folding, replace) in them. A resourcepart may end in a
+// space; an attribute value trimmed before parsing is a different address.
+func c11CodecsVerbatim(c *cx, id string) {
+	n := 0
+	for _, name := range []string{"(*JID).UnmarshalXMLAttr", "(*JID).UnmarshalXML", "JID.MarshalXMLAttr", "JID.MarshalXML"} {
+		f := c.fn(id, "jid", name)
+		if f == nil {
+			continue
+		}
+		n++
+		bad := ""
+		for _, cl := range f.AllCalls() {
+			if cid := f.CalleeID(cl); lossyFuncs[cid] {
+				bad = "calls " + cid + " at " + c.p.Pos(cl.Pos())
+			}
+		}
+		c.r.Check(id, f, "address text not rewritten by the codec", "E-taint: the XML codecs of JID pass the text to Parse / from String unchanged", f.Pos(), bad == "", bad+": an address with leading or trailing white space (valid in a resourcepart) decodes to a different address")
+	}
+	c.r.Floor(id, "XML codecs of JID", n, 4)
 }
